@@ -26,8 +26,14 @@ impl Drop for Guard {
 /// Register a running case (canonical JSON text of the case).
 pub fn guard(case: impl FnOnce() -> String) -> Guard {
     let id = NEXT.fetch_add(1, Ordering::Relaxed);
+    let text = case();
+    // trace mode (shard.rs re-runs a shard that died this way): the case about to run is written
+    // to a file first, so that the parent can name the case that killed the process
+    if let Ok(p) = std::env::var("JBKMC_TRACE_CURRENT") {
+        let _ = std::fs::write(p, &text);
+    }
     let mut g = SLOTS.lock().unwrap();
-    g.get_or_insert_with(HashMap::new).insert(id, (Instant::now(), case()));
+    g.get_or_insert_with(HashMap::new).insert(id, (Instant::now(), text));
     Guard(id)
 }
 
